@@ -1,10 +1,12 @@
 #!/bin/sh
-# usage: bin/try_seed.sh <patch.diff> <property-id>...   — apply a seeded change to /repo, run checks, undo
+# usage: bin/try_seed.sh <patch.diff> <property-id>...   — apply a seeded change to /repo, run checks, undo.
+# The evidence files such a run writes describe a patched tree: the committed ones are restored afterwards.
 patch=$1; shift
 cd /verif
 git -C /repo apply "$patch" || { echo "patch does not apply"; exit 2; }
 for p in "$@"; do
   python3 bin/check $p 2>&1 | grep -E "VIOLATION|KNOWN|quick:|ERROR" | sed "s/^/[$p] /"
+  git checkout -- evidence/$p.json 2>/dev/null
 done
 git -C /repo checkout -- .
 git -C /repo status --short | head -3
